@@ -24,11 +24,15 @@ def core_fn(db, name):
     return f
 
 
-def kernel_fn(db):
-    """the rounding kernel: the function of fpdec-core taking (i128, u128, u128, Option<RoundingMode>)"""
+def kernel_fn(db, required=True):
+    """the rounding kernel in the form of lemma K: the function of fpdec-core taking (i128, u128, u128, Option<RoundingMode>).
+    Lemma K is an internal lemma about a private function: when no function has that shape (the kernel was restructured) the lemma has no subject;
+    everything public is then still proved with the kernel inlined (R-DIV-ROUNDED, W-WIDE-ROUNDED, B-ROUND)."""
     c = [f for f in db.fns.values() if f['crate'] == 'fpdec_core' and f['arg_count'] == 4
          and f['locals'][1:4] == ['i128', 'u128', 'u128'] and 'RoundingMode>' in f['locals'][4]]
     if len(c) != 1:
+        if not required and not c:
+            return None
         raise SystemExit('fpsa: rounding kernel (i128, u128, u128, Option<RoundingMode>) not found uniquely: %s (fail closed)' % [f['id'] for f in c])
     return c[0]
 
@@ -291,9 +295,11 @@ def run(rep, tier):
     rep.tree_hash = db.tree_hash
     rep.configs = ['default']
     jobs = []
+    have_kernel = kernel_fn(db, required=False) is not None
     for mode in MODES:
         for via_none in (False, True):
-            jobs.append(('kernel', mode, via_none))
+            if have_kernel:
+                jobs.append(('kernel', mode, via_none))
             for yc in Y_CELLS:
                 jobs.append(('divr', mode, via_none, yc))
     jobs += [('floor', yc) for yc in Y_CELLS]
@@ -311,7 +317,13 @@ def run(rep, tier):
                     jobs.append(('round', meth, p, n, 'any', None))
                     nround += 1
     run_jobs(rep, __name__, jobs)
-    rep.floor('K-ROUND-QUOT', 16)
+    if have_kernel:
+        rep.floor('K-ROUND-QUOT', 16)
+    else:
+        rep.ob('K-ROUND-QUOT', 'no-function-of-the-lemma-shape', True,
+               'no fpdec-core function takes (i128, u128, u128, Option<RoundingMode>): lemma K has no subject; the public rounding functions are proved with the kernel inlined')
+        rep.assume('lemma K (rounding kernel for ALL quot, rem, divisor) not stated on this tree: the kernel does not have the shape (i128, u128, u128, Option<RoundingMode>); '
+                   'i128_div_rounded, the wide rounded divisions and round / checked_round are proved with it inlined')
     rep.floor('R-DIV-ROUNDED', 64)
     rep.floor('F-DIV-MOD-FLOOR', 4)
     rep.floor('B-ROUND', nround)
